@@ -130,7 +130,28 @@ static std::string genAsm(std::mt19937_64 &rng) {
   o << "LDBM 1\nSTAI 2\nLDAC 0\nOPR SVC\n";   // exit(areg)
   return o.str();
 }
+#include <sys/wait.h>
+#include <fcntl.h>
+int hextb_main(int argc, const char **argv);   // hextb.cpp's main (renamed on the command line)
+
 int main(int argc, char **argv) {
+  // cli <binary> <input file> <stdout file> [seed]: hextb's OWN main() in a child process; prints its exit status
+  if (argc >= 5 && !strcmp(argv[1], "cli")) {
+    fflush(stdout);
+    pid_t pid = fork();
+    if (pid == 0) {
+      int fi = open(argv[3], O_RDONLY), fo = open(argv[4], O_WRONLY | O_CREAT | O_TRUNC, 0644);
+      dup2(fi, 0); dup2(fo, 1);
+      std::string seedArg = std::string("+verilator+seed+") + (argc > 5 ? argv[5] : "1");
+      const char *av[] = {"hextb", argv[2], seedArg.c_str(), "--max-cycles", "3000000"};
+      int rc = hextb_main(5, av);
+      fflush(stdout); std::cout.flush();
+      exit(rc);   // what the process would return (exit() keeps the low 8 bits, as the OS does)
+    }
+    int st = 0; waitpid(pid, &st, 0);
+    printf("{\"exited\": %s, \"status\": %d}\n", WIFEXITED(st) ? "true" : "false", WIFEXITED(st) ? WEXITSTATUS(st) : -WTERMSIG(st));
+    return 0;
+  }
   if (argc < 5 || strcmp(argv[1], "sweep")) { fprintf(stderr, "usage\n"); return 2; }
   std::mt19937_64 rng(strtoull(argv[2], 0, 10)); long n = atol(argv[3]); std::string tests = argv[4];
   const char *bin = "c06_prog.bin";
